@@ -112,6 +112,42 @@ def seeded_variants(prop, root):
     return out
 
 
+def refactoring_variants(prop, root, only_touching=None):
+    """equivalence variants from /verif/refactorings/<name>/patch.diff: behaviour-preserving changes written by independent
+    sub-agents (each verified by them with the repository's suite and a differential check); taken for a property when the
+    patch touches a file that property's rules look at"""
+    out = []
+    rd = os.path.join(HERE, "refactorings")
+    if not os.path.isdir(rd):
+        return out
+    for name in sorted(os.listdir(rd)):
+        patch_p = os.path.join(rd, name, "patch.diff")
+        if not os.path.exists(patch_p):
+            continue
+        with open(patch_p) as fh:
+            diff = fh.read()
+        files = re.findall(r"^\+\+\+ b/(\S+)", diff, flags=re.M)
+        if only_touching is not None and not (set(files) & set(only_touching)):
+            continue
+        tmp = tempfile.mkdtemp(prefix="stverif_refac_")
+        try:
+            for rel in files:
+                os.makedirs(os.path.dirname(os.path.join(tmp, rel)), exist_ok=True)
+                if os.path.exists(os.path.join(root, rel)):
+                    shutil.copy(os.path.join(root, rel), os.path.join(tmp, rel))
+            r = subprocess.run(["patch", "-p1", "-s", "-d", tmp, "-i", patch_p], capture_output=True, text=True)
+            if r.returncode != 0:
+                continue        # the tree has moved on: not applicable any more
+            overlay = {}
+            for rel in files:
+                with open(os.path.join(tmp, rel), encoding="utf-8") as fh:
+                    overlay[rel] = fh.read()
+            out.append({"name": "refactoring:" + name, "kind": "equiv", "overlay": overlay})
+        finally:
+            shutil.rmtree(tmp, ignore_errors=True)
+    return out
+
+
 # whole-package behaviour-preserving rewrites every property's rules must be silent on
 GENERIC_EQUIV = [
     {"name": "whole package reformatted (ast.unparse: layout, comments, parentheses, quotes)", "kind": "equiv", "transform": "reformat"},
